@@ -13,6 +13,10 @@ fn arg(args: &[String], name: &str) -> Option<String> {
 }
 
 fn main() {
+    // anyhow/std capture a backtrace for every error value when RUST_BACKTRACE is set; error paths
+    // are the common case here (refused handshakes, truncated frames), so switch library
+    // backtraces off (panic backtraces are unaffected). Done before any thread is started.
+    std::env::set_var("RUST_LIB_BACKTRACE", "0");
     if std::env::var("VERIF_TRACING").is_ok() {
         use tracing_subscriber::{EnvFilter, FmtSubscriber};
         let sub = FmtSubscriber::builder().with_env_filter(EnvFilter::new(std::env::var("VERIF_TRACING").unwrap())).with_writer(std::io::stderr).without_time().finish();
